@@ -16,6 +16,7 @@ CONSTANTS MCDefects,                \* the deviations enabled in this run
           MCHistSizes,              \* sizes used with histories of more than one attempt
           MCMethods,                \* indices into MethodTable
           MCMaxRe,                  \* at most this many re-sends (history length <= MCMaxRe + 1)
+          MCOutcomes,               \* the outcomes histories are built from (besides the final "ok")
           MCBS,                     \* blocksize
           ShardK, ShardS,           \* emission sharding
           EmitOn
@@ -29,7 +30,7 @@ DataSyms == <<"a","b","c","d","e","f","g","h","i","j","k","l","m","n","o","p">>
 Data(kind, n) == [i \in 1..n |-> IF kind \in TextKinds /\ i % 2 = 1 THEN NA ELSE DataSyms[i]]
 
 RECURSIVE HistsOfLen(_)
-HistsOfLen(n) == IF n = 0 THEN {<<>>} ELSE {<<o>> \o h : o \in (Outcomes \ {"ok"}), h \in HistsOfLen(n - 1)}
+HistsOfLen(n) == IF n = 0 THEN {<<>>} ELSE {<<o>> \o h : o \in MCOutcomes, h \in HistsOfLen(n - 1)}
 Hists == UNION {{h \o <<"ok">> : h \in HistsOfLen(n)} : n \in 0..MCMaxRe}
 
 Raw == [kind : MCKinds, n : MCSizes, start : {0, 1}, m : MCMethods, chunked : BOOLEAN,
@@ -64,16 +65,17 @@ ActRewindSeekFails == st.pc = "enter" /\ EnterCase(D, sc, st) = "RewindSeekFails
 ActRewindRefused == st.pc = "enter" /\ EnterCase(D, sc, st) = "RewindRefused" /\ st' = Enter(D, sc, st) /\ UNCHANGED sc
 \* never enabled: an integer position implies seek
 ActRewindNoSeek == st.pc = "enter" /\ EnterCase(D, sc, st) = "RewindNoSeek" /\ st' = Enter(D, sc, st) /\ UNCHANGED sc
-ActSend == st.pc = "send" /\ st' = Send(sc, st) /\ UNCHANGED sc
+ActSend == st.pc = "send" /\ ~Breaks(sc, st) /\ st' = Send(sc, st) /\ UNCHANGED sc
+ActSendBreaks == st.pc = "send" /\ Breaks(sc, st) /\ st' = SendBreaks(sc, st) /\ UNCHANGED sc
 ActReturn == st.pc = "reply" /\ Head(st.left) = "ok" /\ st' = Reply(D, sc, st) /\ UNCHANGED sc
-ActRetry == st.pc = "reply" /\ Head(st.left) \in {"err", "503"} /\ st' = Reply(D, sc, st) /\ UNCHANGED sc
+ActRetry == st.pc = "reply" /\ Head(st.left) \in {"err", "errsend", "503"} /\ st' = Reply(D, sc, st) /\ UNCHANGED sc
 ActPoolRedirect == st.pc = "reply" /\ sc.client = "pool" /\ Head(st.left) \in {"307", "308"} /\ st' = Reply(D, sc, st) /\ UNCHANGED sc
 ActManagerRedirect == st.pc = "reply" /\ sc.client = "mgr" /\ Head(st.left) \in {"307", "308"} /\ st' = Reply(D, sc, st) /\ UNCHANGED sc
 ActSeeOther == st.pc = "reply" /\ Head(st.left) = "303" /\ st' = Reply(D, sc, st) /\ UNCHANGED sc
 
 Next == \/ ActRecordPosition \/ ActTellFails \/ ActMarkUnreplayable \/ ActNoPosition
         \/ ActRewind \/ ActRewindSeekFails \/ ActRewindRefused \/ ActRewindNoSeek
-        \/ ActSend \/ ActReturn \/ ActRetry \/ ActPoolRedirect \/ ActManagerRedirect \/ ActSeeOther
+        \/ ActSend \/ ActSendBreaks \/ ActReturn \/ ActRetry \/ ActPoolRedirect \/ ActManagerRedirect \/ ActSeeOther
 Spec == Init /\ [][Next]_vars /\ WF_vars(Next)
 
 -----------------------------------------------------------------------------
@@ -81,7 +83,7 @@ Spec == Init /\ [][Next]_vars /\ WF_vars(Next)
 
 TypeOK == /\ st.pc \in {"enter", "send", "reply", "done"}
           /\ st.bodyPos \in {PosNone, PosFailed} \cup {PosAt(n) : n \in 0..Len(sc.content)}
-          /\ st.cursor \in 0..Len(sc.content)
+          /\ st.cursor \in 0..Len(sc.content) /\ st.used \in 0..4
           /\ st.outcome \in {"running", "resp", "UnrewindableBodyError", "ValueError"}
           /\ Len(st.atts) + Len(st.left) <= Len(sc.hist) + 1
 
@@ -97,6 +99,7 @@ RulesHoldExceptKnown ==
 FramingTable ==
     sc.caller = "none" => \A j \in 1..Len(st.atts) :
         LET a == st.atts[j] IN
+        a.complete =>
         /\ a.ok /\ a.clean
         /\ a.mode = (IF sc.chunked THEN "chunked"
                      ELSE IF ~CarriesBody(sc, j) THEN (IF UpperSeq(MethodAt(sc, j)) \in NoBodyMethods THEN "none" ELSE "cl")
